@@ -46,6 +46,7 @@ def main():
     ap.add_argument("--slot", default="0")
     ap.add_argument("--ops", default="")
     ap.add_argument("--keep-suite-killed", action="store_true")
+    ap.add_argument("--retest-survivors", action="store_true", help="re-run the recorded survivors (matched by file, function, operator and original text) against the current check")
     a = ap.parse_args()
 
     props = {}
@@ -108,6 +109,24 @@ def main():
                 done.add((o["file"], o["start"], o["repl"]))
         counted = 0
         tally = {}
+        if a.retest_survivors:
+            # latest record per mutant; survivors are looked up again in the current
+            # tree by (file, func, op, orig, repl) - offsets may have moved
+            last = {}
+            for l in open(outp):
+                o = json.loads(l)
+                last[(o["file"], o["func"], o["op"], o["orig"], o["repl"], o.get("nth", 0))] = o
+            want = [k for k, o in last.items() if o.get("result") in ("survived", "inconclusive")]
+            pick = []
+            for k in want:
+                cands = [s for s in sites if (s["file"], s["func"], s["op"], s["orig"], s["repl"]) == k[:5]]
+                if cands:
+                    # several identical sites in one function: keep the one nearest to the recorded line
+                    cands.sort(key=lambda s: abs(s["line"] - last[k]["line"]))
+                    pick.append(dict(cands[0], supersedes=[last[k]["file"], last[k]["start"], last[k]["repl"]]))
+            order = pick
+            done = set()
+            a.n = len(order)
         for s in order:
             if counted >= a.n:
                 break
